@@ -7,6 +7,7 @@ import random
 import numpy as np
 import pandas as pd
 
+from .. import api
 from ..common import Driver, log, sx, err_kind
 from ..rowops import bmask_sx, impl_find_nth, impl_first_last_n
 
@@ -126,9 +127,27 @@ def run(res, tier="quick", seed=0, widen=False):
         res.count("api_kind", kind); res.count("api_keytype", kk); res.count("warmed_with", str(warm))
         if t % 97 == 0:
             res.sample(case)
-        sig = dict(level="api", kind=kind, warmed=warm is not None)
+        # the key may be factorized chunk by chunk (in production: >= 1M rows, or an Arrow ChunkedArray): the per-chunk codes
+        # and pointers then reach head / tail / nth unless an earlier operation unified them
+        route = rng.choice(["whole", "whole", "chunked", "chunked", "arrow-chunks"])
+        if route == "arrow-chunks" and (kk == "str" or L < 2):
+            route = "chunked"
+        case["route"] = route
+        res.count("api_route", route)
+        sig = dict(level="api", kind=kind, warmed=warm is not None, route=route)
         try:
-            gbo = GroupBy(pd.Series(key_arr, index=index))
+            if route == "arrow-chunks":
+                import pyarrow as pa
+                cut = rng.randint(1, L - 1)
+                parts = [pa.array(key_arr[:cut], from_pandas=True), pa.array(key_arr[cut:], from_pandas=True)]
+                with api.strategy(chunk_threshold=None):
+                    gbo = GroupBy(pa.chunked_array(parts))
+                values = values.reset_index(drop=True)
+                index = list(range(L))
+                case["index"] = index
+            else:
+                with api.strategy(chunk_threshold=4 if route == "chunked" else None):
+                    gbo = GroupBy(pd.Series(key_arr, index=index))
             if warm is not None:
                 wv = pd.Series(np.arange(L, dtype="float64"), index=index)
                 try:
